@@ -177,3 +177,18 @@ Fixpoint str_endswith (s suf : string) : bool :=
   if String.eqb s suf then true else match s with EmptyString => false | String _ r => str_endswith r suf end.
 Definition py_endswith (l : line) (suf : string) : bool :=
   match rev l with PL s :: _ => str_endswith s suf | _ => false end.
+
+(* ---- arithmetic used by the small pure methods (PureSrc.v) ---- *)
+Class PyDiv (A B C : Type) := pydiv : A -> B -> C.
+Global Instance div_QZ : PyDiv Q Z Q := fun q z => (q / inject_Z z)%Q.
+Global Instance div_QQ : PyDiv Q Q Q := Qdiv.
+Class PyFloorDiv (A B C : Type) := pyfloordiv : A -> B -> C.
+Global Instance fdiv_Z : PyFloorDiv Z Z Z := Z.div.
+Global Instance mod_ZZ : PyMod Z Z Z := Z.modulo.
+Global Instance add_ZQ : PyAdd Z Q Q := fun z q => (inject_Z z + q)%Q.
+Global Instance sub_ZQ : PySub Z Q Q := fun z q => (inject_Z z - q)%Q.
+Class PyAbs (A : Type) := pyabs : A -> A.
+Global Instance abs_Z : PyAbs Z := Z.abs.
+Global Instance abs_Q : PyAbs Q := Qabs.
+(* range(a, b) *)
+Definition zrange (a b : Z) : list Z := map (fun k => (a + Z.of_nat k)%Z) (seq 0 (Z.to_nat (b - a))).
